@@ -1,7 +1,7 @@
 (* C05 — optimize never changes what a validated expression evaluates to. Property theorems only; proofs in OptFacts.v / Generic.v.
    optimize_t and eval_t are the very constants that are extracted and run against the crate. *)
 Require Import ZArith NArith Bool List Arith. Import ListNotations.
-Require Import F64 Dec Types Generic Lang Opt IO OptFacts.
+Require Import F64 Dec Types Generic Lang Opt IO OptFacts GenStruct.
 
 (* value preservation, for every environment, every fuel (success, error midway, even exhaustion), every accumulator *)
 Theorem C05_value : forall E, call_no_undef E -> std_if_then_env E ->
@@ -40,3 +40,14 @@ Example C05_unresolved_refuted :
   let e := EBin Equal (ECall if_then_name [ELit (VBool false); EVar [121%N]; ELit (VNum (of_int 5))]) (ELit (VNum (of_int 0))) in
   res_is (fst (eval_t E e)) (VBool true) = true /\ res_is (fst (eval_t E (snd (fst (optimize_t E (opt_fuel e) e []))))) (VBool false) = true.
 Proof. vm_compute. auto. Qed.
+
+(* tie (a): the tree walks of the optimizer are the ones in the source today - the arms of `match expression` in transform_ternary and fold_constants, in source order
+   (node kind, guard, body identified by its normalised text; an unknown text becomes WOther n), the loop of `optimize` and `expressions_are_const`, regenerated on every run.
+   Opt.v (tt, fold, optimize_t) was written from exactly these arms. *)
+Theorem C05_optimizer_arms_are_the_codes :
+  gen_transform_ternary_arms = [(NUnary, GNone, TRecRight); (NBinary, GNone, TRecLeftRight); (NTernary, GNone, TRecLeftMiddleRight); (NArray, GNone, TRecAll);
+                                (NCall, GIsIfThen, TRewriteIfExactlyThreeElseRecAll); (NCall, GNone, TRecAll); (NAnyOther, GNone, WNothing)] /\
+  gen_fold_constants_arms = [(NUnary, GNone, FEvalIfOperandLiteralElseRec); (NBinary, GNone, FEvalIfBothLiteralElseRecLeftRight); (NTernary, GNone, FSelectBranchIfLiteralConditionElseRecAll);
+                             (NArray, GAllLiteral, FEvalWhole); (NArray, GNone, FRecAll); (NCall, GAllLiteral, FEvalWholeIfExistsPure); (NCall, GNone, FRecAll); (NAnyOther, GNone, WNothing)] /\
+  gen_fold_constants_ends_ok = true /\ gen_expressions_are_const_as_modelled = true /\ gen_optimize_loop_as_modelled = true.
+Proof. repeat split; reflexivity. Qed.
